@@ -165,7 +165,7 @@ vfps::HDF5File::HDF5File(const std::string& filename,
                                   , H5::PredType::IEEE_F64LE
                                   , H5::DataSpace()).write(
                                         H5::PredType::IEEE_F64LE,&ax_E_eVolt);
-    _energyAxis.dataset.write(ps->getAxis(0)->data(),_energyAxis.datatype);
+    _energyAxis.dataset.write(ps->getAxis(1)->data(),_energyAxis.datatype);
 
     if (ef != nullptr || imp != nullptr) {
     // frequency information axis, will be taken from ef or imp
